@@ -9,5 +9,18 @@ Check (C05_enumeration_cap :
   exists ms, enumerate r k p mx = Some ms /\ length ms <= Nat.max mx 1).
 Check (eq_refl : runs_bounded = fun mx en =>
   length (e_runs en) <= mx /\ Forall (fun p => length (snd p) <= mx) (e_parts en)).
+From VP Require Import Sase.ProofsNoPanic.
+Check (C05_never_panics :
+  forall steps negs part max_runs st lim evs,
+    exists en', run_engine (mkCfg (compile steps) negs part max_runs st lim) engine0 evs = Some en').
+Check (C05_step_never_panics :
+  forall g en x, closed (g_nfa g) -> engine_safe (g_nfa g) en ->
+    exists en' ms, process g en x = Some (en', ms) /\ engine_safe (g_nfa g) en').
+Check (eq_refl : run_engine = fix run_engine (g : config) (en : engine) (evs : list event) : option engine :=
+  match evs with
+  | [] => Some en
+  | e :: rest => match process g en e with Some (en', _) => run_engine g en' rest | None => None end
+  end).
+Print Assumptions C05_never_panics.
 Print Assumptions C05_runs_bound.
 Print Assumptions C05_enumeration_cap.
